@@ -42,6 +42,7 @@ func (c10) Gen(r *rand.Rand, tier string, run int) *core.Case {
 	c.Params["doomed"] = []int{0, 0, 2, 5}[r.IntN(4)]
 	c.Params["transport"] = []int{0, 0, 1, 2, 3, 4}[r.IntN(6)]
 	c.Params["concurrent_install"] = r.IntN(2)
+	c.Params["fillers"] = []int{0, 0, 0, 9, 10, 11}[r.IntN(6)]
 	if r.IntN(8) == 0 {
 		// the receiver stops reading for a few simulated seconds while the
 		// senders are blocked in the middle of their messages, then resumes:
@@ -192,6 +193,20 @@ func (c10) Run(c *core.Case, env *core.Env) {
 	install := func(e net.EndPoint) {
 		// the handlers are registered one after the other, or all at once
 		// from as many goroutines: each must get a slot of its own
+		// sometimes the table is first filled with handlers that go away
+		// again once the real ones are in: those then live in the part of
+		// the table that was grown, above a run of free slots
+		var fillers []int
+		for k := 0; k < c.P("fillers", 0); k++ {
+			fillers = append(fillers, e.MakeHandler(func(*net.Header) (bool, bool) { return false, true }, make(chan *net.Message, 1), nil))
+		}
+		defer func() {
+			for _, id := range fillers {
+				if err := e.RemoveHandler(id); err != nil {
+					env.Violate("filler-removal", "removing a registered handler failed: %v", err)
+				}
+			}
+		}()
 		var iwg sync.WaitGroup
 		ids := make([]int, len(st.handlers))
 		for k, h := range st.handlers {
